@@ -38,22 +38,22 @@ fn format_by_name(n: &str) -> Option<(Format, Px)> {
 // ---------------------------------------------------------------------------
 // the specification: a simple cursor over the flattened surface list
 #[derive(Clone, Debug)]
-struct SpecSurf {
-    w: u32,
-    h: u32,
-    len: u64,
-    off: u64,
-    elem: u64,
-    level: u32,
-    slice: u32,
+pub struct SpecSurf {
+    pub w: u32,
+    pub h: u32,
+    pub len: u64,
+    pub off: u64,
+    pub elem: u64,
+    pub level: u32,
+    pub slice: u32,
 }
-struct Spec {
-    flat: Vec<SpecSurf>,
-    total: u64,
-    is_volume: bool,
-    mips: u32,
-    faces: Option<u32>,
-    face_size: (u32, u32),
+pub struct Spec {
+    pub flat: Vec<SpecSurf>,
+    pub total: u64,
+    pub is_volume: bool,
+    pub mips: u32,
+    pub faces: Option<u32>,
+    pub face_size: (u32, u32),
 }
 fn mip(d: u32, l: u32) -> u32 {
     if l >= 32 {
@@ -62,7 +62,7 @@ fn mip(d: u32, l: u32) -> u32 {
         (d >> l).max(1)
     }
 }
-fn build_spec(kind: &Kind, w: u32, h: u32, d: Option<u32>, mips: u32, px: Px) -> Spec {
+pub fn build_spec(kind: &Kind, w: u32, h: u32, d: Option<u32>, mips: u32, px: Px) -> Spec {
     let (n_elem, is_volume, faces, h): (u64, bool, Option<u32>, u32) = match kind {
         Kind::Dx10 { cube: true, array, .. } => (*array as u64 * 6, false, Some(63), h),
         Kind::Dx10 { dim: 3, .. } => (1, true, None, h),
@@ -260,10 +260,10 @@ impl Op {
 
 struct LayoutSpec {
     kind: Kind,
-    w: u32,
-    h: u32,
+    pub w: u32,
+    pub h: u32,
     d: Option<u32>,
-    mips: u32,
+    pub mips: u32,
 }
 
 fn layouts(rng: &mut Rng) -> Vec<LayoutSpec> {
